@@ -46,6 +46,8 @@ type Program struct {
 
 	// inlining (core/inline.go)
 	inlineBusy int
+	wasInlined map[*types.Func]bool
+	dissolved  map[*packages.Package]map[*types.Func]bool
 	anchors    map[*types.Func]bool
 	inlined   map[*types.Func]*FuncDecl
 	posOrigin map[token.Pos]token.Pos
@@ -223,12 +225,64 @@ func RelPkg(path string) string {
 // (non-test files).
 func (p *Program) Funcs(pk *packages.Package) []*FuncDecl {
 	out := p.rawFuncs(pk)
-	if p.InlineMode {
-		for i, d := range out {
-			out[i] = p.Inlined(d)
+	if !p.InlineMode {
+		return out
+	}
+	for i, d := range out {
+		out[i] = p.Inlined(d)
+	}
+	// an unexported helper that has been inlined into its callers and is no longer
+	// referenced by any (inlined) body of the package has no existence of its own
+	// on this view: it is not a unit of analysis
+	if p.dissolved == nil {
+		p.dissolved = map[*packages.Package]map[*types.Func]bool{}
+	}
+	dis, ok := p.dissolved[pk]
+	if !ok {
+		refs := map[*types.Func]bool{}
+		for _, d := range out {
+			ast.Inspect(d.Decl.Body, func(n ast.Node) bool {
+				if id, ok := n.(*ast.Ident); ok {
+					if f, ok := pk.TypesInfo.Uses[id].(*types.Func); ok && f != d.Obj {
+						refs[f] = true
+					}
+				}
+				return true
+			})
+		}
+		// references from package-level initialisers
+		for _, file := range pk.Syntax {
+			if p.IsTestFile(file.Pos()) {
+				continue
+			}
+			for _, decl := range file.Decls {
+				if gd, ok := decl.(*ast.GenDecl); ok {
+					ast.Inspect(gd, func(n ast.Node) bool {
+						if id, ok := n.(*ast.Ident); ok {
+							if f, ok := pk.TypesInfo.Uses[id].(*types.Func); ok {
+								refs[f] = true
+							}
+						}
+						return true
+					})
+				}
+			}
+		}
+		dis = map[*types.Func]bool{}
+		for _, d := range out {
+			if !d.Obj.Exported() && p.wasInlined[d.Obj] && !refs[d.Obj] {
+				dis[d.Obj] = true
+			}
+		}
+		p.dissolved[pk] = dis
+	}
+	var kept []*FuncDecl
+	for _, d := range out {
+		if !dis[d.Obj] {
+			kept = append(kept, d)
 		}
 	}
-	return out
+	return kept
 }
 
 // RawFuncs is Funcs without inlining.
